@@ -39,6 +39,7 @@ def get_centroids_distance(x: np.ndarray, means: np.ndarray) -> np.ndarray:
     """
     x = np.atleast_2d(x)
     if isinstance(x, da.Array):
+        x = x.astype(float)
         distances = []
         for i in range(means.shape[0]):
             distances.append(np.sum((means[i] - x) ** 2, axis=-1))
